@@ -130,6 +130,15 @@ def runPhrase (union ctx arpa : Bool) (vocab model : Bytes) (pfx : String) : IO 
         | some a => arpaFile a vs k
         | none => rawFile items vs k
       writeBytes s!"{pfx}.must{k}" bytes
+    -- the search graph (exact, absent hash collisions)
+    let vg : Item → Verdict := fun it =>
+      let ws := words (if ctx then contextOf it.ngram else it.ngram)
+      if union then phraseVerdictUnion sents ws else phraseVerdict sents ws
+    for k in [0:nout] do
+      let bytes := match arpa? with
+        | some a => arpaFile a vg k
+        | none => rawFile items vg k
+      writeBytes s!"{pfx}.graph{k}" bytes
     return s!"ok outputs={nout} items={items.length} itemsOk={itemsOk items} sentences={sents.length}"
 
 def parseJob (ws : List String) : IO (Option Job) := do
